@@ -111,7 +111,7 @@ func (g *Gen) c13Block(depth int, keymap *string, allowInclude bool, files map[s
 			l := rcLine{K: "bind", Note: nt.text, Typed: wire.Bytes(nt.typed)}
 			if g.P(25) {
 				l.Macro = true
-				l.Value = Pick(g, []string{"text", `\C-a\C-k`, `with \"quote\"`, "x"})
+				l.Value = Pick(g, []string{"text", `\C-a\C-k`, `with \"quote\"`, "x", ""}) // (an empty body is the idiom for disabling a key)
 			} else {
 				l.Value = Pick(g, []string{"verif-probe-0", "verif-probe-1", "verif-probe-2", "beginning-of-line", "kill-line", "self-insert", "undo"})
 			}
